@@ -99,7 +99,7 @@ class GrumpyError(Exception):
 
 class Grumpy:
     """An item one of whose special methods raises: ["G", what, uid] with what in
-    bool | lt | eq | hash | add.  Both the library and the stdlib must let that error through."""
+    bool | lt | eq | hash | add | repr.  Both the library and the stdlib must let that error through."""
 
     __slots__ = ("what", "uid", "exc", "__weakref__")
 
@@ -110,6 +110,7 @@ class Grumpy:
         self.what, self.uid, self.exc = what, uid, exc
 
     def __repr__(self):
+        self._maybe("repr")  # (an item nobody may print: no tool has a reason to format the caller's items)
         return f"Grumpy({self.what},{self.uid},{self.exc})"
 
     def _maybe(self, what):
